@@ -164,6 +164,7 @@ func propC07(c *Ctx, r *Report) {
 		}
 	}
 
+	ruleRatesReadOnly(c, r, "C07-R2/rates-read-only")
 	ruleHoldingWindow(c, r, "C07-R3/holding-window")
 	ruleAveragesEraFree(c, r, "C07-R3/averages-era-free")
 	// the averages priced with are those of a window a reload would produce (shared with C09)
@@ -286,6 +287,24 @@ func propC07(c *Ctx, r *Report) {
 					bad = append(bad, "the divisor does not derive from the destination rate/average only")
 				}
 			}
+			// every successful return is that quotient: no shortcut hands back the amount (or anything else) without the
+			// rate selection and the division - e.g. an "equal rates" fast path would skip min/max with the averages
+			allInstrs(cv, func(ins ssa.Instruction) {
+				ret, ok := ins.(*ssa.Return)
+				if !ok || len(ret.Results) != 2 {
+					return
+				}
+				if !isNilConst(resolveSpill(ret.Results[1])) {
+					return
+				}
+				// the quotient is the Div call's result, or the object Div stored it in (its receiver) once Div has run
+				recv := unwrap(div.Call.Args[0])
+				if !sliceHas(resolveSpill(ret.Results[0]), func(v ssa.Value) bool {
+					return v == ssa.Value(div) || (unwrap(v) == recv && instrDominates(div, ret))
+				}) {
+					bad = append(bad, "the successful return at "+c.ipos(ret)+" does not return the quotient")
+				}
+			})
 			// IsInt64 gate before Int64
 			gate := findCalls(cv, "math/big.Int.IsInt64")
 			i64 := findCalls(cv, "math/big.Int.Int64")
@@ -585,4 +604,57 @@ func sameConstOrValue(a, b ssa.Value) bool {
 	ka, ok1 := a.(*ssa.Const)
 	kb, ok2 := b.(*ssa.Const)
 	return ok1 && ok2 && ka.Value != nil && kb.Value != nil && ka.Value.ExactString() == kb.Value.ExactString()
+}
+
+// ruleRatesReadOnly: the rate map read for a block (SelectPendingRates and the snapshot fallbacks) is shared by the
+// steps of SyncBlock; no step writes to it - an entry filled in or deleted for one step changes what the holding
+// executor, which runs later with the same map, admits and at which price.
+func ruleRatesReadOnly(c *Ctx, r *Report, rule string) {
+	r.rule(rule, 1, "the block's rate map is not modified after it was read")
+	isRateMap := func(t types.Type) bool { return shortType(t) == "map[fat2.PTicker]uint64" }
+	fromRates := func(m ssa.Value) string {
+		for _, l := range c.originLeaves(m, c.RSync) {
+			var call *ssa.Call
+			switch y := l.(type) {
+			case *ssa.Extract:
+				call, _ = y.Tuple.(*ssa.Call)
+			case *ssa.Call:
+				call = y
+			}
+			if call != nil {
+				switch n := shortCallee(call.Common()); n {
+				case "SelectPendingRates", "SelectMostRecentRatesBeforeHeight", "SelectRates", "SelectRecentRates":
+					return n
+				}
+			}
+		}
+		return ""
+	}
+	n := 0
+	var bad []string
+	for _, f := range sortedFuncs(c.RSync) {
+		if f.Pkg != nil && f.Pkg.Pkg.Name() == "pegnet" {
+			continue // the readers build the maps they return
+		}
+		allInstrs(f, func(ins ssa.Instruction) {
+			var m ssa.Value
+			how := ""
+			switch x := ins.(type) {
+			case *ssa.MapUpdate:
+				m, how = x.Map, "assigns an entry"
+			case ssa.CallInstruction:
+				if b, ok := x.Common().Value.(*ssa.Builtin); ok && b.Name() == "delete" && len(x.Common().Args) > 0 {
+					m, how = x.Common().Args[0], "deletes an entry"
+				}
+			}
+			if m == nil || !isRateMap(m.Type()) {
+				return
+			}
+			n++
+			if src := fromRates(m); src != "" {
+				bad = append(bad, fmt.Sprintf("%s %s of the map read by %s at %s", fname(f), how, src, c.ipos(ins)))
+			}
+		})
+	}
+	r.check(len(bad) == 0, rule, "rate maps read for the block", "-", fmt.Sprintf("%d writes to maps of that type on the sync path, none to a map read from pn_rate", n), strings.Join(bad, "; ")+": the same map is handed to the steps that follow (SyncBlock passes it to the holding executor), so they see rates that were never recorded for this block, or miss one that was")
 }
